@@ -26,7 +26,7 @@ class C05(Check):
     ID = 'C05'
     TRACE_FILES = ('modulebase.py', 'protocol/dispatcher.py', 'params.py')
     TIERS = {'quick': {'runs': 12000, 'wall': 75}, 'thorough': {'runs': 400000, 'wall': 800}}
-    RULE = ('case = 1..2 generated modules (2..4 parameters over all datatypes, omit_unchanged_within in '
+    RULE = ('[12 % focus cases: one task re-assigns the value it finds while another one changes the same parameter at the same instant; failing application callbacks as functions / partial objects / callable instances; bytearray assigned to blobs] ' 'case = 1..2 generated modules (2..4 parameters over all datatypes, omit_unchanged_within in '
             '{0, default, 5 s}, update_unchanged in {default, always, never, number}) + 1..3 driver tasks with '
             'generated operation histories {read ok/raising/invalid, write, assign equal/different/invalid, '
             'announce error, repeated identical errors} with time gaps below and above the suppression window; '
